@@ -4,6 +4,7 @@ package main
 
 import (
 	"encoding/json"
+	"golang.org/x/tools/go/ssa"
 	"flag"
 	"fmt"
 	"os"
@@ -123,6 +124,7 @@ func analyse(prop string, def *propDef, tier, root string, bc BuildConfig) (c *C
 		return nil, err
 	}
 	c = newChecker(p, prop, tier)
+	gp = p
 	for _, r := range def.Rules {
 		r(c)
 	}
@@ -298,4 +300,16 @@ func asStrings(v any) []string {
 		return s
 	}
 	return nil
+}
+
+// gp is the program under analysis (for helpers that need cross-function
+// resolution without threading the *Prog through every signature).
+var gp *Prog
+
+// cx: canon across private-helper boundaries.
+func cx(v ssa.Value) ssa.Value {
+	if gp == nil {
+		return canon(v)
+	}
+	return gp.canonX(v)
 }
